@@ -451,7 +451,7 @@ mutual
         let lam ← applyDecorators cx.nsp decorators lam
         let lam := if inner.isMethod && name == "__init_subclass__" then .call (.name "classmethod") [lam] [] else lam
         pure ([← cx.nsp.getAssign name lam], st)
-    | .classDef name bases keywords body _decorators lineno, st => do
+    | .classDef name bases keywords body decorators lineno, st => do
         let inner ← findChild cx.nsp name lineno .class_
         let (b, st) ← lowerBlock { cfg := cx.cfg, nsp := inner, loops := [], fnUsed := false } body st
         let bases' ← transfList cx.nsp [] bases
@@ -467,7 +467,11 @@ mutual
         let fill : Expr := .listComp (.call (.name "setattr") [self2, .name classKey, .name classValue] [])
           [.mk (.tuple [.name classKey, .name classValue])
             (.call (.attribute (.call (.name loader) [] []) "items") [] []) [] false]
-        pure ([create, load, fill], st)
+        if decorators.isEmpty then pure ([create, load, fill], st)
+        else
+          let self3 ← cx.nsp.getLoad [] name
+          let decorated ← applyDecorators cx.nsp decorators self3
+          pure ([create, load, fill, ← cx.nsp.getAssign name decorated], st)
     | .other kind _ _, _ => .error (refuse kind)
 end
 
